@@ -41,6 +41,9 @@ func RunSharded(cmd string, args []string, n int) *Report {
 			}
 			mu.Lock()
 			defer mu.Unlock()
+			if i := strings.Index(stderr.String(), "WARNING: DATA RACE"); i >= 0 {
+				out.Diverge(Divergence{Key: "data-race", Detail: tail(stderr.String()[i:], 6000)})
+			}
 			if child == nil {
 				out.AddExtra("shards_failed", 1)
 				fmt.Fprintf(os.Stderr, "shard %d failed: %v\n%s\n", i, err, tail(stderr.String(), 3000))
